@@ -328,6 +328,19 @@ def cmp_bounds(res, L, U, scale, mode):
     return None
 
 
+def op_scale(op, xb, yb, *refs):
+    """magnitude the rounding of one operation is relative to: for x and / the results themselves (every product / quotient is
+    correctly rounded; tiny operands give tiny tolerances), for + and - also the operands (cancellation).  No floor at 1."""
+    m = 5e-324
+    lists = list(refs) + ([] if op in ("mul", "div") else [xb[0], xb[1], yb[0], yb[1]])
+    for l in lists:
+        for v in l:
+            a = abs(float(v))
+            if a > m and a != float("inf"):
+                m = a
+    return m
+
+
 def scale_of(*lists):
     m = 1
     for l in lists:
@@ -439,6 +452,22 @@ def gen_opd(rng, kind, sign, exact=True):
     return gen_dss(rng, sign)
 
 
+def scale_opd(o, k):
+    """the operand with every value multiplied by 2**k (exact in binary64 for the integer / dyadic families)"""
+    f = 2.0 ** k
+    if o[0] == "N":
+        return ("N", float(o[1]) * f, "float")
+    if o[0] == "I":
+        return ("I", float(o[1]) * f, float(o[2]) * f)
+    if o[0] == "P":
+        return ("P", [float(v) * f for v in o[1]], [float(v) * f for v in o[2]])
+    if o[0] == "S":
+        return ("S", [[float(a) * f, float(b) * f] for a, b in o[1]], list(o[2]))
+    if o[0] == "D" and o[1] in ("gaussian", "uniform"):
+        return ("D", o[1], [float(v) * f for v in o[2]])
+    return o
+
+
 def gen_cases(ctx):
     rng = ctx.rng
     cases = []
@@ -530,6 +559,43 @@ def gen_cases(ctx):
     for Y in (I12, ("I", 0, 3), Pw, Dw, ("N", 2, "int")):
         cases.append(("expr", "f", "mul", Pz, Y))
         cases.append(("expr", "f", "mul", Y, Pz))
+    # ---- Interval x Interval over the nine sign classes (the library's own interval arithmetic against the exact hull, and the
+    # embedded expression against it: the embedding must commute with the operation)
+    cls = [("I", 1, 3), ("I", 0, 2), ("I", -4, -1), ("I", -3, 0), ("I", -1, 2), ("I", -5, 1), ("I", 2, 2), ("I", 0, 0), ("I", -2, -2)]
+    for A in cls:
+        for B in cls:
+            cases.append(("expr", "f", "mul", A, B))
+            if not (B[1] <= 0 <= B[2]):
+                cases.append(("expr", "f", "div", A, B))
+    for A in cls[:6]:
+        for B in cls[:6]:
+            cases.append(("spec", rng.choice(DEPS), "mul", A, B))
+    # ---- magnitudes: the fixed families once more with ONE operand (x, /) or BOTH operands (+, -) scaled by a power of two, so
+    # that every value stays exact: tiny (2^-580: a product of two such endpoints underflows; 2^-70, 2^-30) and huge (2^36, 2^500)
+    base = []
+    for T in (("I", -1, 2), ("I", -2, 0), ("I", 0, 3), ("I", 1, 2), ("I", -4, -1), ("N", 3, "int"), ("N", -2.5, "float")):
+        for H in (Pw, Ps, Sw, Ss, Dw, Ds, ("I", 2, 3), ("I", -1, 2)):
+            base.append((T, H))
+    scales = (-580, -70, 36) if ctx.tier != "thorough" else (-580, -560, -70, -30, 36, 500)
+    j = 0
+    for T, H in base:
+        for op in OPS:
+            j += 1
+            ks = scales if ctx.tier == "thorough" else (scales[j % len(scales)],)
+            for k2 in ks:
+                for order in ((0, 1) if ctx.tier == "thorough" else (j % 2,)):
+                    a, b = (T, H) if order == 0 else (H, T)
+                    if op in ("add", "sub"):
+                        a, b = scale_opd(a, k2), scale_opd(b, k2)
+                    elif (j // 2) % 2 == 0:
+                        a = scale_opd(a, k2)
+                    else:
+                        b = scale_opd(b, k2)
+                    dep = DEPS[j % 4] if (ctx.tier == "thorough" or j % 3) else "f"
+                    if dep == "i" and ctx.tier != "thorough" and (a[0] == "D" or b[0] == "D"):
+                        dep = "f"
+                    form = "spec" if (is_low(a) and is_low(b)) else "expr"
+                    cases.append((form, dep, op, a, b))
     # ---- thin but not degenerate intervals (relative width 1e-9 .. 1e-5, tiny absolute magnitudes): nothing may treat them as points
     thin = [("I", 2000.0, 2000.01), ("I", 1e5, 1e5 + 0.5), ("I", 1e6, 1e6 + 5.0), ("I", -3000.001, -3000.0),
             ("I", 2e-9, 8e-9), ("I", 1.0, 1.0 + 2.0 ** -20), ("I", 7.0, 7.0 + 7e-9)]
@@ -645,7 +711,7 @@ def check_result(ctx, rng, form, dep, op, l, r, impl, feat, case):
         loose = dep == "f" and op in ("mul", "div") and (straddles(xb) or straddles(yb)) and not (lowl and lowr)
         fastref = ref_focal_fast(op, xb, yb)
         if fastref is not None:
-            fscale = max(1.0, float(np.max(np.abs(fastref[0]))), float(np.max(np.abs(fastref[1]))))
+            fscale = op_scale(op, xb, yb, fastref[0], fastref[1])
             if np.isfinite(fscale) and fast_ok(impl, fastref[0], fastref[1], fscale, "enc" if loose else "eq"):
                 ctx.bump("oracle:focal-" + ("enc" if loose else "eq"))
                 return
@@ -653,7 +719,7 @@ def check_result(ctx, rng, form, dep, op, l, r, impl, feat, case):
         if ref is None:
             return
         L, U = ref
-        scale = scale_of(L, U)
+        scale = op_scale(op, xb, yb, L, U)
         w = cmp_bounds(impl, L, U, scale, "enc" if loose else "eq")
         ctx.bump("oracle:focal-" + ("enc" if loose else "eq"))
         if w is not None:
@@ -699,7 +765,7 @@ def random_set_check(dep, op, xb, yb, res):
     L, R = np.array(res[1], dtype=float), np.array(res[2], dtype=float)
     if len(L) != n or len(R) != n:
         return {"why": "length", "len": len(L)}
-    scale = max(1.0, float(np.max(np.abs(lo))), float(np.max(np.abs(hi))))
+    scale = op_scale(op, xb, yb, lo, hi)
     tol = 4 * 24 * core.ulp(scale)
     if dep in ("p", "o"):
         for nm, got, ref in (("left", L, lo), ("right", R, hi)):
@@ -1064,12 +1130,18 @@ def run(ctx: core.Check):
                      f"{kl} {op} {kr} ({form}, dependency {dep}) raised {impl[1]}")
             continue
         if zero_div:
+            # zero strictly inside the divisor: interval arithmetic has no result (ZeroDivisionError), so neither has the embedded /
+            # mixed expression; answering a bounded p-box is a wrong finite value (operands merely touching zero are left alone)
+            db = bounds(r)
+            if op == "div" and min(db[0]) < 0 < max(db[1]) and impl[0] == "ok":
+                ctx.fail({**feat, "check": "zero-inside-divisor-answered", "symptom": "answered"}, case,
+                         f"{kl} / {kr} ({form}, {dep}): the divisor has zero strictly inside, yet a bounded result was returned")
             continue
         if is_low(l) and is_low(r) and form == "expr":
             # number / interval result: compare with the exact interval reference
             xb, yb = bounds(l), bounds(r)
             h = pbx.ivl_hull(op, F(xb[0][0]), F(xb[1][0]), F(yb[0][0]), F(yb[1][0]))
-            sc = scale_of(h)
+            sc = op_scale(op, xb, yb, h)
             got = (F(impl[2][0]), F(impl[3][0]))
             if not all(pbx.tol_le(a, b, sc) and pbx.tol_le(b, a, sc) for a, b in zip(got, h)):
                 ctx.fail({**feat, "check": "low-reference", "symptom": "wrong-bounds"}, case,
@@ -1086,12 +1158,11 @@ def run(ctx: core.Check):
                 ctx.fail({**feat, "check": "convert-first-raises", "symptom": "raises:" + str(cf[1])}, case,
                          f"convert({kl}).{op}(convert({kr}), {dep}) failed: {cf[:2]}")
             else:
-                scf = max([1.0] + [abs(v) for v in cf[2] + cf[3] + impl[2] + impl[3]])
+                scf = op_scale(op, bounds(l), bounds(r), cf[2], cf[3], impl[2], impl[3])
                 if fast_ok(impl, cf[2], cf[3], scf, "eq"):
                     w = None
                 else:
-                    sc = scale_of(fr(cf[2]), fr(cf[3]), fr(impl[2]), fr(impl[3]))
-                    w = cmp_bounds(impl, fr(cf[2]), fr(cf[3]), sc, "eq")
+                    w = cmp_bounds(impl, fr(cf[2]), fr(cf[3]), scf, "eq")
                 if w is not None:
                     ctx.fail({**feat, "check": "convert-first-" + w["why"], "symptom": "differs-from-converted"}, {**case, "witness": w},
                              f"{kl} {op} {kr} ({form}, dependency {dep}) differs from the expression with both operands converted first: "
